@@ -285,7 +285,26 @@ func evalC18(c c18Case, o *Obs) error {
 		return fmt.Errorf("%s: modifying the sorted copy changed the original transaction", desc)
 	}
 	cp := c.build()
+	heldIn, heldOut := cp.TxIn, cp.TxOut // the caller's own slices, and the objects in them
+	inSet, outSet := map[*wire.TxIn]int{}, map[*wire.TxOut]int{}
+	for _, p := range cp.TxIn {
+		inSet[p]++
+	}
+	for _, p := range cp.TxOut {
+		outSet[p]++
+	}
 	txsort.InPlaceSort(cp)
+	// in place: the transaction's own entries were permuted - same objects, same slices - not replaced by copies
+	for i, p := range cp.TxIn {
+		if inSet[p]--; inSet[p] < 0 || heldIn[i] != p {
+			return fmt.Errorf("%s: InPlaceSort did not permute the caller's inputs in place (entry %d is a new object, or the caller's slice is not the sorted one)", desc, i)
+		}
+	}
+	for i, p := range cp.TxOut {
+		if outSet[p]--; outSet[p] < 0 || heldOut[i] != p {
+			return fmt.Errorf("%s: InPlaceSort did not permute the caller's outputs in place (entry %d is a new object, or the caller's slice is not the sorted one)", desc, i)
+		}
+	}
 	s = txsort.Sort(tx)
 	if keySeq(cp) != keySeq(s) {
 		return fmt.Errorf("%s: InPlaceSort order %s differs from Sort order %s", desc, keySeq(cp), keySeq(s))
